@@ -97,7 +97,7 @@ LastDev == IF DevIdx = {} THEN 0 ELSE CHOOSE i \in DevIdx : \A j \in DevIdx : j 
 Walk == /\ mode = "walk" /\ UNCHANGED <<mode, chunk>>
         /\ Len(path) < GMDepth
         /\ (Deviations < GMWide \/ Len(path) - LastDev < GMTail)
-        /\ (slot \in {"query", "q", "u"} => Len(path) < GMShallow)
+        /\ (slot \in {"query", "q", "u", "arrayFilters", "c"} => Len(path) < GMShallow)
         /\ leaf = CanonLeaf(CurNT)
         /\ UNCHANGED slot
         /\ \/ \E k \in KeysAt(CurNT) : Extend(k, G[CurNT].k[k])
